@@ -213,6 +213,8 @@ def run(ctx: Ctx) -> None:
         # tie of the modelled block sub-parser (mini_total is a theorem about exactly this model)
         from . import miniblock
         miniblock.tie_all(ctx, drv, quick)
+        from . import rxtie
+        rxtie.tie_leaf(ctx, drv, quick)      # translated regular expressions + inline leaf rules (autolink, html_inline, entity)
     finally:
         drv.close()
     ctx.partial += [
@@ -229,8 +231,10 @@ def run(ctx: Ctx) -> None:
         "context pos < posMax <= len(src) — the rules index src[pos] —, inline_total2, iok_*; the backtick rule with its closer cache "
         "and its search over the whole source), giving imini_total for the inline sub-parser under every subset of those rules "
         "(model tied by the `inline` differential runs), and with the emphasis rule (scanDelims, tokenize, balance_pairs, _postProcess: "
-        "Props/C01f.lean iok_emphasis, iok_strike, emini_total, smini_total — strikethrough with its lone-marker swap included —, for every character classification). For all other rules (table, reference, html_block, lheading; "
-        "the other inline rules) the contracts are monitored on every call on the implementation, not proved",
+        "Props/C01f.lean iok_emphasis, iok_strike, emini_total, smini_total — strikethrough with its lone-marker swap included —, for every character classification), and with autolink, html_inline, entity (Props/C01g.lean "
+        "iok_autolink, iok_htmlInline, iok_entity, xmini_total; their regular expressions are translated from the live pattern objects, tie `inlinex` + `rx`). "
+        "For all other rules (table, reference, html_block, lheading; "
+        "link, image, linkify) the contracts are monitored on every call on the implementation, not proved",
         "renderer totality follows from structural recursion on tokens in the renderer model (C04); CPython's real stack "
         "limit, memory and `re` engine time are not exhibited by the model: covered by the per-input time limit and the deep-"
         "nesting probes",
